@@ -260,7 +260,7 @@ func randomSpecs(cfg fw.Config, rec *fw.Rec, n int) {
 	fw.Parallel(cfg.Workers, n, func(w, i int) {
 		r := cfg.Rng("c04-rand", i)
 		u := &gen.Uid{Prefix: fmt.Sprintf("s%d_", i)}
-		a := gen.GenSpec(r, gen.SpecOpts{MaxNodes: 3, Prog: gen.ProgOpts{Fail: true, BadRet: true, Emit: true}}, u)
+		a := gen.GenSpec(r, gen.SpecOpts{MaxNodes: 3, ActionWithMessageBranching: true, Prog: gen.ProgOpts{Fail: true, BadRet: true, Emit: true}}, u)
 		native := i%2 == 0
 		spec, err := a.Compiled(native, ref.NativeNilErr)
 		if err != nil {
